@@ -175,6 +175,8 @@ def run_pair(case, follow=True):
             blocked = str(e)
         except S.ScriptExhausted as e:
             blocked = "clock: " + str(e)
+        except Exception as e:       # nothing may escape the accept loop: the listener thread would die
+            blocked = "escaped: %s: %s" % (type(e).__name__, str(e)[:80])
     if "mid" not in snap:
         snap["mid"] = (dist.peer_state(), [S.run_ids(x) if isinstance(x, dict) and all(
             isinstance(x.get(k), list) for k in ("completed", "halted", "updated")) else repr(x)[:40]
@@ -210,6 +212,10 @@ def oracle(case, r):
     out = []
     small = {k: v for k, v in case.items()}
     mid_state, mid_queue, _ = r["mid"]
+    if r["blocked"] and r["blocked"].startswith("escaped"):
+        return [dict(signature="exception-kills-listener",
+                     what="%s: an exception left _tcp_incoming, the listener thread is gone (%s)"
+                          % (case["why"], r["blocked"]), case=small, detail=r["blocked"])]
     if r["blocked"] and not r["blocked"].startswith("clock"):
         return [dict(signature="silent-client-blocks-listener",
                      what="a connection that sends nothing (%s) blocks the listener for ever; the valid message "
@@ -443,6 +449,8 @@ def run_listen(clients):
                 dead = True
             except S.ScriptExhausted:
                 pass
+            except Exception:
+                dead = True
             todo -= max(len(net.accepted) - n0, 1)
     return dist, dec, pre_coq, net, dead
 
